@@ -14,6 +14,7 @@ import json
 import os
 
 from sa.core import AnalysisError, norm_src, unparse
+from sa.effects import expand_alternatives
 from sa.guards import FuncGuards, callee_name, calls_in, fmt_atoms, textually_before
 from sa.report import Finding, RuleResult
 
@@ -66,11 +67,99 @@ def _derefs(fnode, name):
     return out
 
 
+def _dominates(a, b):
+    """Statement a is executed before statement b on every path that reaches b: a precedes b
+    in a statement list that b sits in (directly or nested below)."""
+    if a is b:
+        return False
+    node = b
+    while node is not None:
+        par = getattr(node, "_parent", None)
+        for fld in ("body", "orelse", "finalbody"):
+            lst = getattr(par, fld, None)
+            if isinstance(lst, list) and node in lst and a in lst:
+                return lst.index(a) < lst.index(node)
+        node = par
+    return False
+
+
+def _stmt_kind(stmt):
+    """Coarse, refactoring-stable description of the statement a dereference sits in."""
+    def call_name(v):
+        return "call %s()" % (callee_name(v) or "?")
+    if isinstance(stmt, ast.Expr) and isinstance(stmt.value, ast.Call):
+        return call_name(stmt.value)
+    if isinstance(stmt, (ast.Assign, ast.AnnAssign)) and isinstance(
+            getattr(stmt, "value", None), ast.Call):
+        return call_name(stmt.value)
+    if isinstance(stmt, ast.AugAssign):
+        return "update"
+    if isinstance(stmt, (ast.Assign, ast.AnnAssign)):
+        return "assignment"
+    if isinstance(stmt, (ast.If, ast.While)):
+        return "test"
+    if isinstance(stmt, ast.Return):
+        return "return"
+    if isinstance(stmt, ast.For):
+        return "loop"
+    return type(stmt).__name__.lower()
+
+
+CONSTRUCTORS = ("add_task_state", "add_staged_task")
+
+
+def _deref_kind(d):
+    """Coarse description of one dereference (keyed findings and reviewed entries use it, so
+    that renaming, re-wrapping or moving the statement does not detach them)."""
+    par = getattr(d, "_parent", None)
+    if isinstance(d, ast.Subscript):
+        key = "[%r]" % d.slice.value if isinstance(d.slice, ast.Constant) else "[*]"
+        if isinstance(d.ctx, ast.Store):
+            return "store %s" % key
+        if isinstance(d.ctx, ast.Del):
+            return "delete %s" % key
+        if isinstance(par, ast.AugAssign) and par.target is d:
+            return "update %s" % key
+        # handed to one of the engine's record / staging constructors: which keys are passed
+        # is incidental, the consumer is what the invariant is about
+        anc, hops = par, 0
+        while anc is not None and not isinstance(anc, ast.stmt) and hops < 6:
+            if isinstance(anc, ast.Call) and callee_name(anc) in CONSTRUCTORS:
+                return "argument of %s()" % callee_name(anc)
+            anc = getattr(anc, "_parent", None)
+            hops += 1
+        return "read %s" % key
+    if isinstance(d, ast.Attribute):
+        if isinstance(par, ast.Call) and par.func is d:
+            a0 = par.args[0] if par.args else None
+            if isinstance(a0, ast.Constant) and isinstance(a0.value, str):
+                return "call .%s(%r)" % (d.attr, a0.value)
+            return "call .%s()" % d.attr
+        return "attribute .%s" % d.attr
+    if isinstance(d, ast.Compare):
+        if isinstance(d.left, ast.Constant):
+            return "membership test %r" % d.left.value
+        return "membership test"
+    return type(d).__name__
+
+
+def _reviewed_index():
+    """{(function qualname, construct): entry}"""
+    out = {}
+    for e in load_reviewed():
+        for fn in e.get("functions") or [e.get("function")]:
+            out[(fn, e["construct"])] = e
+    return out
+
+
 def load_reviewed():
     p = os.path.join(VERIF, "reviewed_derefs.json")
     if not os.path.exists(p):
         return []
     return json.load(open(p)).get("entries", [])
+
+
+_OLD2NEW = {}
 
 
 def rule_E7(ctx, functions=None, only_keys=None):
@@ -80,7 +169,7 @@ def rule_E7(ctx, functions=None, only_keys=None):
     prog = ctx.prog
     acc = optional_accessors(prog)
     res.facts["optional_accessors"] = sorted(f.qualname for f in acc.values())
-    reviewed = {e["construct"]: e for e in load_reviewed()}
+    reviewed = _reviewed_index()
     used_reviews = set()
     for f in prog.all_functions():
         if f.module.short not in SCOPE:
@@ -107,17 +196,32 @@ def rule_E7(ctx, functions=None, only_keys=None):
             # a re-assignment's own right-hand side still reads the old value
             end_stmt = next((d for d in ast.walk(f.node) if getattr(d, "_ord", None) == end), None)
             end_last = max((x._ord for x in ast.walk(end_stmt) if hasattr(x, "lineno")), default=end) if end_stmt else end
-            for d in _derefs(f.node, var):
+            first_unguarded = []   # statements of earlier unguarded dereferences
+            for d in sorted(_derefs(f.node, var), key=lambda x: x._ord):
                 if not (n._ord < d._ord <= end_last):
                     continue
                 atoms = fg.atoms(d)
-                con = "result of %s(): %s" % (cn, norm_src(_stmt(d)))
+                con = "result of %s(): %s" % (cn, _deref_kind(d))
                 inst = (f.qualname, con)
-                if _presence(atoms, var):
+                if _presence(atoms, var) or all(
+                        _presence(alt, var) for alt in expand_alternatives(f, fg, atoms)):
                     res.holds(inst)
-                elif con in reviewed:
+                    continue
+                # an earlier unguarded dereference that every path to this one passes through
+                # fails first: only the first one on a path is a finding of its own
+                st = _stmt(d)
+                if any(_dominates(e_, st) for e_ in first_unguarded):
+                    res.holds(inst, "reached only after an earlier dereference of %s" % var)
+                    continue
+                first_unguarded.append(st)
+                if False:
+                    pass
+                elif (f.qualname, con) in reviewed or (
+                        f.qualname, "result of %s(): *" % cn) in reviewed:
                     used_reviews.add(con)
-                    res.holds(inst, "reviewed: " + reviewed[con]["reason"])
+                    ent = reviewed.get((f.qualname, con)) or reviewed[
+                        (f.qualname, "result of %s(): *" % cn)]
+                    res.holds(inst, "reviewed: " + ent["reason"])
                 else:
                     res.violated(inst, Finding(
                         "E7", f.file, f.qualname, con,
@@ -145,7 +249,13 @@ def rule_E7(ctx, functions=None, only_keys=None):
                 continue
             fg = fg or FuncGuards(prog, f)
             atoms = fg.atoms(n)
-            con = "key %r: %s" % (key, norm_src(_stmt(n)))
+            par_ = getattr(n, "_parent", None)
+            deeper = isinstance(par_, (ast.Subscript, ast.Attribute)) and getattr(
+                par_, "value", None) is n
+            kind = _deref_kind(par_ if deeper else n)
+            if kind == "read [%r]" % key:
+                kind = "read"
+            con = "key %r: %s" % (key, kind)
             inst = (f.qualname, con)
             present = any(
                 (a[0] == "in" and a[1] == repr(key) and a[2] == ("src", var))
@@ -155,9 +265,9 @@ def rule_E7(ctx, functions=None, only_keys=None):
             stored = _dominating_store(f, n, var, key)
             if present or stored:
                 res.holds(inst)
-            elif con in reviewed:
+            elif (f.qualname, con) in reviewed:
                 used_reviews.add(con)
-                res.holds(inst, "reviewed: " + reviewed[con]["reason"])
+                res.holds(inst, "reviewed: " + reviewed[(f.qualname, con)]["reason"])
             else:
                 res.violated(inst, Finding(
                     "E7", f.file, f.qualname, con,
@@ -235,15 +345,29 @@ def _dominating_store(f, node, var, key):
                 for prev in lst[:lst.index(cur)]:
                     if isinstance(prev, ast.Assign) and _stores(prev, var, key):
                         return True
-                    # if k not in d [or ...]: d[k] = v   (initialise when absent)
-                    if isinstance(prev, ast.If) and ("%r not in %s" % (key, var)) in unparse(
-                            prev.test) and not isinstance(prev.test, ast.BoolOp) or (
-                            isinstance(prev, ast.If) and isinstance(prev.test, ast.BoolOp)
-                            and isinstance(prev.test.op, ast.Or)
-                            and ("%r not in %s" % (key, var)) in unparse(prev.test)):
+                    # if <k absent or empty in d>: d[k] = v   (initialise when absent): after
+                    # the statement the key is present whichever way the test went.  The test
+                    # must be implied by absence: 'k not in d', 'not d.get(k)', or a
+                    # disjunction with such a disjunct
+                    if isinstance(prev, ast.If) and _true_when_absent(prev.test, var, key):
                         if any(isinstance(b, ast.Assign) and _stores(b, var, key) for b in prev.body):
                             return True
         cur = par
+    return False
+
+
+def _true_when_absent(test, var, key):
+    txt = unparse(test).replace('"', "'")
+    if isinstance(test, ast.BoolOp):
+        if isinstance(test.op, ast.Or):
+            return any(_true_when_absent(v, var, key) for v in test.values)
+        return False
+    if txt == "%r not in %s" % (key, var):
+        return True
+    if isinstance(test, ast.UnaryOp) and isinstance(test.op, ast.Not):
+        inner = unparse(test.operand).replace('"', "'")
+        return inner in ("%s.get(%r)" % (var, key), "%s.get(%r, None)" % (var, key),
+                         "%r in %s" % (key, var))
     return False
 
 
